@@ -172,6 +172,7 @@ def r4(cx):
     # Act::init: Ready is written only after emission was disabled (msg / func); Interrupt without
     f = m.one(r"act::<impl acts::scheduler::ActTask for acts::model::act::Act>::init$")
     dis = [c for c in f.calls() if c.q == Q and _const_bool(f, pa, c.args[1]) is True]
+    covered = set()
     for c in f.calls():
         if c.q == T.Q_SET_STATE:
             v = pa.root(f, c.args[1])
@@ -181,6 +182,7 @@ def r4(cx):
                     if g.root[0] == "discr" and g.root[2] and g.root[2].endswith("ActRunAs"):
                         arms = discr_variants(m, g)
                 pre = any(f.dominates(d.b, c.b) for d in dis)
+                covered |= set(arms or ())
                 if v[2] == "Ready":
                     cx.ob("C08.R4", "act:init:%s" % "|".join(sorted(arms or ["?"])), pre and arms is not None and arms <= {"Msg", "Func"},
                           "an act run as %s becomes Ready only after its emission was disabled" % sorted(arms or []), c.loc)
@@ -198,7 +200,10 @@ def r4(cx):
             if g.root[0] == "discr" and g.root[2] and g.root[2].endswith("ActRunAs"):
                 ok = discr_variants(m, g) == {"Msg"}
     cx.ob("C08.R4", "act:run:msg", ok, "Act::run re-enables emission exactly for message acts (their completion message is the only one they yield)", loc)
-    cx.floor("C08.R4", 5)
+    # the three ways an act runs are all decided (merged or separate arms alike)
+    if covered != {"Irq", "Msg", "Func"}:
+        cx.undecide("C08.R4", "Act::init: the first state of an act run as %s was not found" % sorted({"Irq", "Msg", "Func"} - covered))
+    cx.floor("C08.R4", 4)
 
 
 def _is_normal_return(f, r):
